@@ -162,3 +162,93 @@ def prov_rdkit_sanitize(repo, tier="quick"):
     if not obs:
         obs.append(ob_ok(oid, fi, construct="no SanitizeMol in networkx_to_rdkit", instance="sanitize", reason="nothing re-perceives the chemistry"))
     return obs
+
+
+def ord_anchor_reset(repo, tier="quick"):
+    """D8 (third copy of a branch with nested branches): every repetition of a multiplied branch starts from the base anchor.
+    The nested-branch arithmetic moves `prev_node` while one repetition is added; it has to be set back at the end of each
+    repetition, not only once after the last (repaired in /repo: "fix: every repetition of a multiplied branch starts from its
+    base anchor")."""
+    fi = repo.function("read_cgsmiles:read_cgsmiles")
+    fl, cfg = fi.flow, fi.cfg
+    oid = "ORD.anchor-reset"
+    reps = []
+    for n in cfg.nodes:
+        if n.kind != "for":
+            continue
+        it = fl.canon(n.ast.iter, n.id)
+        c = is_call(it, "range")
+        if not c or not c[0]:
+            continue
+        hi = c[0][-1] if len(c[0]) <= 2 else c[0][1]
+        if hi[0] == "binop" and hi[1] == "-" and hi[3] == ("const", 1) and is_call(hi[2], "int"):
+            inner = [m for m in cfg.nodes if m.kind == "for" and m.id != n.id and m.id in cfg.loops.get(n.id, set()) and
+                     enclosing_loops(fi, m.id) and enclosing_loops(fi, m.id)[0].id == n.id]
+            if inner:
+                reps.append((n, inner[0]))
+    need(reps, "anchor vanished: no repetition loop `for _ in range(0, int(<multiplier>) - 1)` over the branch recipes in read_cgsmiles", fi)
+    obs = []
+    for rep, inner in reps:
+        resets = set()
+        for m in cfg.nodes:
+            if m.kind == "stmt" and isinstance(m.ast, ast.Assign) and len(m.ast.targets) == 1 and isinstance(m.ast.targets[0], ast.Name) and \
+                    isinstance(m.ast.value, ast.Name) and "base_anchor" in m.ast.value.id and m.id in cfg.loops.get(rep.id, set()) and \
+                    m.id not in cfg.loops.get(inner.id, set()):
+                resets.add(m.id)
+        ok = bool(resets) and cfg.must_pass(inner.id, {rep.id}, resets, edge_filter=lambda a, b, l: l != "exc")
+        (obs.append(ob_ok(oid, fi, rep.ast, construct="prev_node = base_anchor at the end of every repetition", instance="per-repetition",
+                          reason="each copy of the multiplied branch is attached where the first one was")) if ok else
+         obs.append(ob_fail(oid, fi, rep.ast, construct="the anchor is set back only after the last repetition", instance="per-repetition",
+                            reason="the offsets of nested branches accumulate from one repetition to the next: from the third copy on the unit hangs on a "
+                                   "nested node ({[#A]([#B]([#C])[#D])|3} is not its written-out form)")))
+    return obs
+
+
+def idx_scan_bound(repo, tier="quick"):
+    """A position returned by `_find_next_character` is len(string) when nothing was found (a fragment body has no closing
+    brace): subscripting the string with such a position needs a bound test in front of it (repaired in /repo: "fix: a
+    fragment may end with a multiplied branch")."""
+    fi = repo.function("read_cgsmiles:read_cgsmiles")
+    fl, cfg = fi.flow, fi.cfg
+    oid = "IDX.scan-bound"
+    pat = ("param", fi.positional_params[0])
+    obs = []
+    n = 0
+    seen = set()
+    for sub in ast.walk(fi.node):
+        if not (isinstance(sub, ast.Subscript) and isinstance(sub.ctx, ast.Load) and id(sub) in cfg.owner and not isinstance(sub.slice, ast.Slice)):
+            continue
+        nid = cfg.owner[id(sub)]
+        if fl.canon(sub.value, nid) != pat:
+            continue
+        k = fl.canon(sub.slice, nid)
+        if is_call(k, "_find_next_character") is None:
+            continue
+        key = (nid, ast.unparse(sub))
+        if key in seen:
+            continue
+        seen.add(key)
+        n += 1
+        guarded = False
+        tests = [(t, pol, g) for t, pol, g in guards_of(fi, nid)]
+        # the test the subscript itself is part of: `i < len(s) and s[i] ...`
+        node = cfg.nodes[nid]
+        own = node.ast.test if node.kind in ("if", "while") else None
+        if isinstance(own, ast.BoolOp) and isinstance(own.op, ast.And):
+            for v in own.values:
+                if any(x is sub for x in ast.walk(v)):
+                    break
+                tests.append((v, True, nid))
+        for t, pol, g in tests:
+            for tc in (t.values if isinstance(t, ast.BoolOp) and isinstance(t.op, ast.And) and pol else [t]):
+                c = fl.canon(tc, g)
+                if pol and c[0] == "cmp" and c[1] == ("<",) and c[2][0] == k and is_call(c[2][1], "len") and is_call(c[2][1], "len")[0][0] == pat:
+                    guarded = True
+        (obs.append(ob_ok(oid, fi, sub, construct="%s behind `%s < len(...)`" % (ast.unparse(sub), ast.unparse(sub.slice)), instance="bound:" + ast.unparse(sub.slice),
+                          reason="the scan result is tested against the end of the string before it is used as an index")) if guarded else
+         obs.append(ob_fail(oid, fi, sub, construct="%s without a bound test" % ast.unparse(sub), instance="bound:" + ast.unparse(sub.slice),
+                            reason="the position comes from _find_next_character, which returns len(string) when nothing is found: a fragment body that "
+                                   "ends in `)|n` (no closing brace behind it) raises IndexError")))
+    if n == 0:
+        raise AnalysisError("index scan matched no subscript of the pattern by a scan result in read_cgsmiles (floor 1)")
+    return obs
